@@ -45,6 +45,12 @@ func init() {
 			if err := json.Unmarshal(c, &cs); err != nil {
 				fatal("C06 case: %v", err)
 			}
+			// loading the codon-usage table of an organism with ANOTHER genetic code (from JSON text) is no business of
+			// the default tables: done before every look-up
+			if other := tableIds[(cs.Id*7+len(cs.S)+len(cs.Codon))%len(tableIds)]; other != cs.Id {
+				b, _ := json.Marshal(codon.GetCodonTable(other))
+				_ = codon.ParseCodonJSON(b)
+			}
 			t := codon.GetCodonTable(cs.Id)
 			switch cs.K {
 			case "cell":
